@@ -15,7 +15,7 @@ RULE = ('cases: (i) C01 strings (molecule x partition x rendering), (ii) multi-l
         'member reports that fragment name; virtual nodes have no members; atoms annotated by the generator carry '
         'the written annotation (independent of the template reader); every case is resolved a second time '
         'through from_graph with other node keys and shuffled insertion order; base graphs with fragment-less nodes '
-        'also as a graph object that was resolved before with fragments for those nodes. non-trivial = a fragment name used '
+        'also as a graph object that was resolved before with fragments for those nodes; a pair of shared-atom descriptors never remains as a bond between two atoms. non-trivial = a fragment name used '
         '>=2 times, >=2 fragments of a dedicated/shared-atom string, or >=2 levels; distinct = string')
 ASSUMPTIONS = ['templates are read through cgsmiles\' own fragment reader (reader defects are the subject of C04/C13)',
                'for atoms merged by the shared-atom operator name/charge/annotation comparisons are skipped '
